@@ -39,6 +39,7 @@ PropOf(e) ==
     [] e.a = "LoopExit" -> P_LoopExit(e.args.s)
     [] e.a = "Race" -> P_Race(e.args.s, e.args.q)
     [] e.a = "Elect" -> P_Elect
+    [] e.a = "Resume" -> P_Resume
     [] OTHER -> Same
 
 ImplOf(e) ==
@@ -48,6 +49,7 @@ ImplOf(e) ==
     [] e.a = "LoopExit" -> DoLoopExit(e.args.s)
     [] e.a = "Race" -> DoRace(e.args.s, e.args.q)
     [] e.a = "Elect" -> DoElect
+    [] e.a = "Resume" -> DoResumeAgain
     [] OTHER -> Same
 
 \* the registered entry carries the ids of the subscription it points to
@@ -66,6 +68,7 @@ TraceNext ==
         ELSE /\ Chk(PropOf(e), "P", e, "step")
              /\ Chk(ImplOf(e), "I", e, "step")
      /\ Chk(C13_OneActive', "P", e, "C13_OneActive")
+     /\ Chk(C13_StreamEnded', "P", e, "C13_StreamEnded")
      /\ Chk(TypeOK', "I", e, "TypeOK")
      /\ Chk(ActiveRegistered', "I", e, "ActiveRegistered")
      /\ Chk(RegOK', "I", e, "RegOK")
